@@ -47,6 +47,21 @@ def extra_catalog():
                                                                                                                   ("Trapezoid", "c", -inf, sym("t1", "p"), sym("t2", "p"), inf)]}],
                                                            outputs=[{"name": "O", "terms": [O_A, O_B], "aggregation": "Maximum", "defuzzifier": ("Centroid", 2), "default": float("nan"),
                                                                      "range": (sym("olo", "p"), sym("ohi", "p"))}], valid_range=[("olo", "ohi")], compare_outputs=False)))
+    # containers and strings beyond reprlib's default limits (6 list/tuple items, 4 dict entries, 30 characters, 6 levels)
+    def make_sizes(sym):
+        xs = [sym(f"dx{i}", "p") for i in range(8)]
+        ys = [sym(f"dy{i}", "u") for i in range(8)]
+        many_terms = [("Triangle", f"t{i}", float(i), float(i) + 0.5, float(i) + 1.0) for i in range(8)]
+        fvars = {"va": sym("va", "p"), "vb": -2.0, "vc": 0.001, "vd": 7.25, "ve": float("inf"), "vf": sym("vf", "p"), "vg": 0.5}
+        rules = [f"if X is t{i} then O is a" for i in range(8)] + ["if X is d and Y is t0 or X is t1 and Y is t2 or X is t3 and Y is t4 or X is t5 then O is f with 0.5"]
+        return {"name": "sizes", "description": "a description that is considerably longer than thirty characters, to be kept in full",
+                "inputs": [{"name": "X", "description": "x" * 45, "terms": many_terms + [("Discrete", "d", xs, ys)]}, {"name": "Y", "terms": many_terms[:5]}],
+                "outputs": [{"name": "O", "terms": [("Constant", "a", sym("c", "p")), ("Linear", "l", [sym("l0", "p"), 0.25, -0.5, 0.125, 2.0, -3.0, 0.75, 1.5]),
+                                                    ("Function", "f", "va * X + vb - vc * vd + vf / vg + min(ve, Y)", fvars)],
+                             "aggregation": None, "defuzzifier": ("WeightedAverage",)}],
+                "blocks": [{"name": "rules", "description": "y" * 40, "conjunction": "Minimum", "disjunction": "Maximum", "implication": None, "activation": ("General",), "rules": rules}],
+                "valid_range": [(f"dx{i}", f"dx{i + 1}") for i in range(7)], "compare_outputs": False}
+    out.append(("sizes/beyond-reprlib-defaults", make_sizes))
     return out
 
 
@@ -210,7 +225,7 @@ def obligations(tier, seed):
     obs = []
     entries = catalog(tier) + extra_catalog()
     all_forms = ("repr", "plain-unformatted", "encapsulated-unformatted", "encapsulated-formatted")
-    rich = {"flags+descriptions+hedges", "rule-weights", "term/Constant+Linear+Function", "term/Discrete", "names/keywords", "special/negative-zero", "special/infinities+nan"}
+    rich = {"flags+descriptions+hedges", "rule-weights", "term/Constant+Linear+Function", "term/Discrete", "names/keywords", "special/negative-zero", "special/infinities+nan", "sizes/beyond-reprlib-defaults"}
     for name, make in entries:
         forms = all_forms if (tier != "quick" or name in rich) else ("repr",)
         obs.append((f"python/{name}", ob_engine(name, make, tier, f"python/{name}", forms=forms)))
